@@ -5,9 +5,98 @@ package vers
 // Machine-checked contracts for this package (checked by /verif/govc; see /verif/DESIGN.md).
 // This file contains comments only; it is compiled only under the build tag "verif".
 
-// A VERS string that passes validation starts with "vers:" and has a '/' after the scheme.
+// ---- validation (C17): every syntactic rejection reason of the property is an error
+
 //@ func valid
 //@   ensures shape: result == nil ==> len(versString) >= 5 && len(strings.SplitN(versString[5:], "/", 2)) == 2
+//@   ensures prefix: !strings.HasPrefix(versString, "vers:") ==> result != nil                              [C17]
+//@   ensures separator: strings.HasPrefix(versString, "vers:") && len(strings.SplitN(versString[5:], "/", 2)) != 2 ==> result != nil   [C17]
+//@   ensures empty-scheme: strings.HasPrefix(versString, "vers:") && len(strings.SplitN(versString[5:], "/", 2)) == 2 && strings.SplitN(versString[5:], "/", 2)[0] == "" ==> result != nil   [C17]
+//@   ensures empty-constraints: strings.HasPrefix(versString, "vers:") && len(strings.SplitN(versString[5:], "/", 2)) == 2 && strings.SplitN(versString[5:], "/", 2)[1] == "" ==> result != nil   [C17]
 
 //@ func scheme
 //@   ensures xor: (result1 == nil) ==> valid(versString) == nil
+//@   ensures invalid: valid(versString) != nil ==> result1 != nil                                           [C17]
+//@   ensures ok: valid(versString) == nil ==> result1 == nil
+//@   ensures name: result1 == nil ==> result0 == strings.SplitN(versString[5:], "/", 2)[0]                  [C17]
+
+// ---- routing (C17): each supported scheme name is evaluated by its own ecosystem
+
+//@ func Contains
+//@   loop 1 invariant hasStarConstraint ==> (exists i int :: 0 <= i && i <= rangeindex && strings.TrimSpace(constraints[i]) == "*")
+//@   ensures invalid: valid(versRange) != nil ==> result1 != nil && !result0                                [C17]
+//@   ensures error-is-false: result1 != nil ==> !result0                                                    [C17]
+//@   ensures unsupported: valid(versRange) == nil && noStar(versRange) && !supported(strings.SplitN(versRange[5:], "/", 2)[0]) ==> result1 != nil && !result0   [C17]
+//@   ensures route[alpine]: valid(versRange) == nil && noStar(versRange) && strings.SplitN(versRange[5:], "/", 2)[0] == "alpine" ==> result0 == alpineContains(strings.Split(strings.SplitN(versRange[5:], "/", 2)[1], "|"), version).0 && (result1 == nil) == (alpineContains(strings.Split(strings.SplitN(versRange[5:], "/", 2)[1], "|"), version).1 == nil)   [C17]
+//@   ensures route[cargo]: valid(versRange) == nil && noStar(versRange) && strings.SplitN(versRange[5:], "/", 2)[0] == "cargo" ==> result0 == cargoContains(strings.Split(strings.SplitN(versRange[5:], "/", 2)[1], "|"), version).0 && (result1 == nil) == (cargoContains(strings.Split(strings.SplitN(versRange[5:], "/", 2)[1], "|"), version).1 == nil)   [C17]
+//@   ensures route[deb]: valid(versRange) == nil && noStar(versRange) && strings.SplitN(versRange[5:], "/", 2)[0] == "deb" ==> result0 == debianContains(strings.Split(strings.SplitN(versRange[5:], "/", 2)[1], "|"), version).0 && (result1 == nil) == (debianContains(strings.Split(strings.SplitN(versRange[5:], "/", 2)[1], "|"), version).1 == nil)   [C17]
+//@   ensures route[gem]: valid(versRange) == nil && noStar(versRange) && strings.SplitN(versRange[5:], "/", 2)[0] == "gem" ==> result0 == gemContains(strings.Split(strings.SplitN(versRange[5:], "/", 2)[1], "|"), version).0 && (result1 == nil) == (gemContains(strings.Split(strings.SplitN(versRange[5:], "/", 2)[1], "|"), version).1 == nil)   [C17]
+//@   ensures route[maven]: valid(versRange) == nil && noStar(versRange) && strings.SplitN(versRange[5:], "/", 2)[0] == "maven" ==> result0 == mavenContains(strings.Split(strings.SplitN(versRange[5:], "/", 2)[1], "|"), version).0 && (result1 == nil) == (mavenContains(strings.Split(strings.SplitN(versRange[5:], "/", 2)[1], "|"), version).1 == nil)   [C17]
+//@   ensures route[npm]: valid(versRange) == nil && noStar(versRange) && strings.SplitN(versRange[5:], "/", 2)[0] == "npm" ==> result0 == npmContains(strings.Split(strings.SplitN(versRange[5:], "/", 2)[1], "|"), version).0 && (result1 == nil) == (npmContains(strings.Split(strings.SplitN(versRange[5:], "/", 2)[1], "|"), version).1 == nil)   [C17]
+//@   ensures route[nuget]: valid(versRange) == nil && noStar(versRange) && strings.SplitN(versRange[5:], "/", 2)[0] == "nuget" ==> result0 == nugetContains(strings.Split(strings.SplitN(versRange[5:], "/", 2)[1], "|"), version).0 && (result1 == nil) == (nugetContains(strings.Split(strings.SplitN(versRange[5:], "/", 2)[1], "|"), version).1 == nil)   [C17]
+//@   ensures route[rpm]: valid(versRange) == nil && noStar(versRange) && strings.SplitN(versRange[5:], "/", 2)[0] == "rpm" ==> result0 == rpmContains(strings.Split(strings.SplitN(versRange[5:], "/", 2)[1], "|"), version).0 && (result1 == nil) == (rpmContains(strings.Split(strings.SplitN(versRange[5:], "/", 2)[1], "|"), version).1 == nil)   [C17]
+//@   ensures route[generic]: valid(versRange) == nil && noStar(versRange) && strings.SplitN(versRange[5:], "/", 2)[0] == "generic" ==> result0 == semverContains(strings.Split(strings.SplitN(versRange[5:], "/", 2)[1], "|"), version).0 && (result1 == nil) == (semverContains(strings.Split(strings.SplitN(versRange[5:], "/", 2)[1], "|"), version).1 == nil)   [C17]
+//@   ensures route[golang]: valid(versRange) == nil && noStar(versRange) && strings.SplitN(versRange[5:], "/", 2)[0] == "golang" ==> result0 == golangContains(strings.Split(strings.SplitN(versRange[5:], "/", 2)[1], "|"), version).0 && (result1 == nil) == (golangContains(strings.Split(strings.SplitN(versRange[5:], "/", 2)[1], "|"), version).1 == nil)   [C17]
+//@   ensures route[pypi]: valid(versRange) == nil && noStar(versRange) && strings.SplitN(versRange[5:], "/", 2)[0] == "pypi" ==> result0 == pypiContains(strings.Split(strings.SplitN(versRange[5:], "/", 2)[1], "|"), version).0 && (result1 == nil) == (pypiContains(strings.Split(strings.SplitN(versRange[5:], "/", 2)[1], "|"), version).1 == nil)   [C17]
+
+// no constraint is the star (the lone "*" range is answered before scheme and version are looked at and is not covered by the property)
+//@ spec noStar(versRange string) bool = forall i int :: 0 <= i && i < len(strings.Split(strings.SplitN(versRange[5:], "/", 2)[1], "|")) ==> strings.TrimSpace(strings.Split(strings.SplitN(versRange[5:], "/", 2)[1], "|")[i]) != "*"
+//@ spec supported(s string) bool = s == "alpine" || s == "cargo" || s == "deb" || s == "gem" || s == "maven" || s == "npm" || s == "nuget" || s == "rpm" || s == "generic" || s == "golang" || s == "pypi"
+
+//@ func alpineContains
+//@   ensures ecosystem: result0 == contains(ecosystem("alpine"), constraints, version).0 && (result1 == nil) == (contains(ecosystem("alpine"), constraints, version).1 == nil)   [C17]
+
+//@ func cargoContains
+//@   ensures ecosystem: result0 == contains(ecosystem("cargo"), constraints, version).0 && (result1 == nil) == (contains(ecosystem("cargo"), constraints, version).1 == nil)   [C17]
+
+//@ func debianContains
+//@   ensures ecosystem: result0 == contains(ecosystem("debian"), constraints, version).0 && (result1 == nil) == (contains(ecosystem("debian"), constraints, version).1 == nil)   [C17]
+
+//@ func gemContains
+//@   ensures ecosystem: result0 == contains(ecosystem("gem"), constraints, version).0 && (result1 == nil) == (contains(ecosystem("gem"), constraints, version).1 == nil)   [C17]
+
+//@ func mavenContains
+//@   ensures ecosystem: result0 == contains(ecosystem("maven"), constraints, version).0 && (result1 == nil) == (contains(ecosystem("maven"), constraints, version).1 == nil)   [C17]
+
+//@ func npmContains
+//@   ensures ecosystem: result0 == contains(ecosystem("npm"), constraints, version).0 && (result1 == nil) == (contains(ecosystem("npm"), constraints, version).1 == nil)   [C17]
+
+//@ func nugetContains
+//@   ensures ecosystem: result0 == contains(ecosystem("nuget"), constraints, version).0 && (result1 == nil) == (contains(ecosystem("nuget"), constraints, version).1 == nil)   [C17]
+
+//@ func rpmContains
+//@   ensures ecosystem: result0 == contains(ecosystem("rpm"), constraints, version).0 && (result1 == nil) == (contains(ecosystem("rpm"), constraints, version).1 == nil)   [C17]
+
+//@ func semverContains
+//@   ensures ecosystem: result0 == contains(ecosystem("semver"), constraints, version).0 && (result1 == nil) == (contains(ecosystem("semver"), constraints, version).1 == nil)   [C17]
+
+//@ func golangContains
+//@   ensures ecosystem: result0 == contains(ecosystem("golang"), constraints, version).0 && (result1 == nil) == (contains(ecosystem("golang"), constraints, version).1 == nil)   [C17]
+
+// ---- the generic evaluator rejects a probe the ecosystem rejects
+//@ func contains
+//@   ensures invalid-probe: e.NewVersion(version).1 != nil ==> result1 != nil && !result0                  [C17]
+//@   ensures error-is-false: result1 != nil ==> !result0                                                    [C17]
+
+//@ func pypiContains
+//@   ensures error-is-false: result1 != nil ==> !result0                                                    [C17]
+
+// ---- the VERS chain, function by function (C04)
+
+// operator / version split of one normalised constraint
+//@ func parseConstraint
+//@   ensures op>=: len(constraintStr) >= 2 && constraintStr[:2] == ">=" && strings.TrimSpace(constraintStr[2:]) != "" ==> result1 == nil && result0.operator == ">=" && result0.version == strings.TrimSpace(constraintStr[2:])   [C04 C17]
+//@   ensures op<=: len(constraintStr) >= 2 && constraintStr[:2] == "<=" && strings.TrimSpace(constraintStr[2:]) != "" ==> result1 == nil && result0.operator == "<=" && result0.version == strings.TrimSpace(constraintStr[2:])   [C04 C17]
+//@   ensures op!=: len(constraintStr) >= 2 && constraintStr[:2] == "!=" && strings.TrimSpace(constraintStr[2:]) != "" ==> result1 == nil && result0.operator == "!=" && result0.version == strings.TrimSpace(constraintStr[2:])   [C04 C17]
+//@   ensures op>: len(constraintStr) >= 1 && constraintStr[:1] == ">" && !(len(constraintStr) >= 2 && constraintStr[:2] == ">=") && strings.TrimSpace(constraintStr[1:]) != "" ==> result1 == nil && result0.operator == ">" && result0.version == strings.TrimSpace(constraintStr[1:])   [C04 C17]
+//@   ensures op<: len(constraintStr) >= 1 && constraintStr[:1] == "<" && !(len(constraintStr) >= 2 && constraintStr[:2] == "<=") && strings.TrimSpace(constraintStr[1:]) != "" ==> result1 == nil && result0.operator == "<" && result0.version == strings.TrimSpace(constraintStr[1:])   [C04 C17]
+//@   ensures op=: len(constraintStr) >= 1 && constraintStr[:1] == "=" && strings.TrimSpace(constraintStr[1:]) != "" ==> result1 == nil && result0.operator == "=" && result0.version == strings.TrimSpace(constraintStr[1:])   [C04 C17]
+//@   ensures no-version: len(constraintStr) >= 2 && (constraintStr[:2] == ">=" || constraintStr[:2] == "<=" || constraintStr[:2] == "!=") && strings.TrimSpace(constraintStr[2:]) == "" ==> result1 != nil   [C04 C17]
+//@   ensures no-operator: !(len(constraintStr) >= 1 && (constraintStr[:1] == ">" || constraintStr[:1] == "<" || constraintStr[:1] == "=")) && !(len(constraintStr) >= 2 && (constraintStr[:2] == "!=" || constraintStr[:2] == ">=" || constraintStr[:2] == "<=")) ==> result1 != nil   [C04 C17]
+
+// interval -> native range text (the comparator pair the ecosystem's range parser is specified on, C02)
+//@ func intervalToSemverRanges
+//@   ensures exact: interval.exact != "" ==> len(result) == 1 && result[0] == "=" + interval.exact   [C04]
+//@   ensures both: interval.exact == "" && interval.exclude == "" && interval.lower != "" && interval.upper != "" ==> len(result) == 1 && result[0] == (interval.lowerInclusive ? ">=" : ">") + interval.lower + " " + (interval.upperInclusive ? "<=" : "<") + interval.upper   [C04]
+//@   ensures lower-only: interval.exact == "" && interval.exclude == "" && interval.lower != "" && interval.upper == "" ==> len(result) == 1 && result[0] == (interval.lowerInclusive ? ">=" : ">") + interval.lower   [C04]
+//@   ensures upper-only: interval.exact == "" && interval.exclude == "" && interval.lower == "" && interval.upper != "" ==> len(result) == 1 && result[0] == (interval.upperInclusive ? "<=" : "<") + interval.upper   [C04]
